@@ -90,7 +90,7 @@ def traitContainsAsync (t : TraitItem) : Bool :=
 
 def traitImplBlock (attr : TraitAttr) (t : TraitItem) (fns : List TraitFn) : GenImpl :=
   { attrs := traitImplSubAttrs t
-    params := implTParam false :: (traitTg t).params
+    params := implParams .generic false (traitTg t).params
     traitRef := [i t.ident] ++ genericArgs .none (traitTg t).params
     selfTy := implPathToks
     preds := .ty [] entraitTTy (traitImplTBounds attr (traitContainsAsync t) t.ident (traitTg t)) false :: (traitTg t).preds
